@@ -5,6 +5,7 @@ the library's allocator/mapping requests are counted, then the call is re-run
 once per request with that request failing (all single faults) and once per
 pair (all double faults), each followed by an un-faulted call on the same
 objects."""
+import os
 import re
 
 from .. import common, facts, gen, pool, rt
@@ -47,6 +48,13 @@ def corpus(tier):
            ("7-small", s7_setting(8, 8)),
            ("7-32M", s7_setting(15, 8)),
            ("7-p2", s7_setting(6, 2, 2))]
+    # the static-state entry points as the FIRST call of a process (whatever they set up lazily is requested then)
+    for m, s in cheap.items():
+        c.append(("static-first/" + m, [], rt.crypt_line("crypt", 0, ph, s), True))
+    for m in ("yescrypt", "sha512crypt", "descrypt", None):
+        c.append(("gensalt_st-first/" + (m or "NULL"), [],
+                  rt.gensalt_line("st", gen.TAG[m] if m else None, 0, facts.rbytes_pattern("rnd", 32), 32, 192), True))
+    c.append(("static-first/y-small", [], rt.crypt_line("crypt", 0, ph, y_setting(b"$y$", 8, 8)), True))
     for name, s in big:
         c.append(("rn/" + name, [rt.obj_line(0, fill="r", seed=3)], rt.crypt_line("crypt_rn", 0, ph, s)))
         c.append(("ra/" + name, ["raobj 2 -1 0"], rt.crypt_line("crypt_ra", 2, ph, s)))
@@ -77,10 +85,37 @@ def parse_ev(ev):
     return out
 
 
+TOKENS = [None]
+
+
+def tokens_enabled():
+    if TOKENS[0] is None:
+        with open(os.path.join(rt.TREE.gendir(), "config.h")) as f:
+            m = re.search(r"#define ENABLE_FAILURE_TOKENS (\d)", f.read())
+        TOKENS[0] = bool(m and m.group(1) == "1")
+    return TOKENS[0]
+
+
+class FreshWorker:
+    """a new worker process for every run() - for calls whose behaviour depends
+    on being the first of the process"""
+
+    def __init__(self, path):
+        self.path = path
+
+    def run(self, lines, timeout):
+        w = pool.Worker(self.path)
+        try:
+            return w.run(lines, timeout)
+        finally:
+            w.stop()
+
+
 def do_case(item):
-    name, setup0, call = item
+    name, setup0, call = item[:3]
+    fresh = len(item) > 3 and item[3]
     acc = common.Acc()
-    w = rt.vw(FL)
+    w = FreshWorker(rt.PATHS["vw-" + FL]) if fresh else rt.vw(FL)
     is_gs = call.startswith("gensalt")
     base_setup = ["ledger 1", "mapcap %d" % (128 << 20)]
     tail = ["rafree 2"] if "crypt_ra" in call else []
@@ -157,6 +192,9 @@ def do_case(item):
                 viol("errno", "errno %d after a failed request" % e)
             if r1.get("r") not in ("N",) and not (call.split()[1] in ("crypt", "crypt_r")):
                 viol("nonnull-on-failure", "entry point must return NULL")
+            if r1.get("r") == "N" and call.split()[1] in ("crypt", "crypt_r") and tokens_enabled():
+                viol("null-instead-of-token", "this build returns failure tokens from crypt/crypt_r, the faulted call "
+                                              "returned NULL")
             o = r1.get("o")
             if o not in (None, "-", "2a30", "2a31", ".") and not is_gs:
                 viol("output-not-token", "output field holds %s" % o)
